@@ -194,7 +194,7 @@ def _robust(arity):
 def seq_oracle(case_text, real_lines):
     """Replays a plain-mode case against the spec.  Returns a list of (tag, message).
     Tags: returns reads order sizes counts stats cas_exact staging_empty reopen_same open_clean
-          abort_noop hash_identity nofail"""
+          abort_noop hash_identity disk_wellformed disk_history nofail"""
     lines = [l for l in case_text.splitlines() if l and not l.startswith(("case ", "end"))]
     cfg = case_cfg(lines)
     spec = Spec(cfg["kt"])
@@ -223,6 +223,7 @@ def seq_oracle(case_text, real_lines):
     prev_state_obs = None
     last_state, dirty, after_open = None, True, False
     held = {}
+    disk_top = 0
     for l in lines:
         t = l.split()
         if t[0] in ("cfg", "plant", "mkdir", "fault", "setsettings"):
@@ -261,6 +262,35 @@ def seq_oracle(case_text, real_lines):
                     fails.append(("cas_exact", f"obs {obs_i}: cas files {casf} expected {spec.cas_files()}"))
                 if stag:
                     fails.append(("staging_empty", f"obs {obs_i}: staging not empty: {stag}"))
+                # C20 with no operation in flight: the files decoded by the harness's independent reader
+                # are well-formed, snapshot + log above the snapshot's version equal the acknowledged
+                # history, and the highest version on disk never goes down (versions are not reused)
+                if any(x.startswith("L ") for x in blk):
+                    for msg in disk_wellformed(blk, int(cfg["n"]), prefix=""):
+                        fails.append(("disk_wellformed", f"obs {obs_i}: {msg}"))
+                    try:
+                        segs = sorted(parse_L(x) for x in blk if x.startswith("L "))
+                        snap = next((x[len("S index "):] for x in blk if x.startswith("S index ")), None)
+                        snap_ver, st = 0, {}
+                        if snap is not None and not snap.startswith("bad") and not snap.endswith("trailing"):
+                            snap_ver = int(snap.split()[0][4:])
+                            for e in snap.split(" ", 1)[1][1:-1].split(";"):
+                                if e:
+                                    kk, v = e.split("="); h, sz = v.split(":"); st[kk] = (h, int(sz))
+                        top = snap_ver
+                        for seg, recs, tail in segs:
+                            for v, op in recs:
+                                top = max(top, v)
+                                if v > snap_ver:
+                                    apply_logged(st, op)
+                        want = spec_entries_map(spec)
+                        if st != want:
+                            fails.append(("disk_history", f"obs {obs_i}: snapshot (version {snap_ver}) + log decode to {st}, the acknowledged history gives {want}"))
+                        if top < disk_top:
+                            fails.append(("disk_history", f"obs {obs_i}: the highest version on disk went down from {disk_top} to {top}: later operations will reuse versions"))
+                        disk_top = max(disk_top, top)
+                    except (ValueError, IndexError) as e:
+                        fails.append(("disk_wellformed", f"obs {obs_i}: undecodable listing: {e}"))
             continue
         got = results.get(idx)
         idx += 1
@@ -740,7 +770,7 @@ def settings_oracle(case_text, real_lines):
 
 @_robust(2)
 def conc_oracle(case_text, real_lines):
-    """tags: dangling (C04/C08), read_atomic (C05), quiescent_exact (C07), stuck (C15), restart_conc (C02), nofail"""
+    """tags: dangling (C04/C08), read_atomic (C05), quiescent_exact (C07), stuck (C15), restart_conc (C02), crash_conc (C03), nofail"""
     fails = []
     calls = {}                     # tid -> list of call token lists
     for l in case_text.splitlines():
@@ -792,6 +822,33 @@ def conc_oracle(case_text, real_lines):
             fails.append(("restart_conc", f"reopen after the concurrent run failed: {ra[0][:200]}"))
         elif ra[0] != rb[0]:
             fails.append(("restart_conc", f"state before dropping the handle `{rb[0][:300]}` differs from the state after reopening `{ra[0][:300]}`"))
+    # C03 under concurrency (proofs/ConcDurable.v, C03_concurrent_kill_any_position): a crash image taken
+    # with every thread parked recovers to the index of that instant (or, when the index was locked at
+    # that instant, to the last one seen before or the first one seen after), with no missing or corrupted blob
+    kimgs = [l.split(" ", 2) for l in real_lines if l.startswith("K ")]
+    if kimgs:
+        order = [(i, idx) for (i, tid, frm, to, idx, cas) in steps]
+        for _, st_no, rest in kimgs:
+            if rest.startswith("FAILED"):
+                fails.append(("crash_conc", f"recovery from the crash image taken after step {st_no} failed: {rest[:200]}")); continue
+            m = re.match(r"idx=(\[[^\]]*\]) missing=(\d+) corrupted=(\d+)", rest)
+            if not m:
+                fails.append(("malformed", f"unparsable crash-image line: K {st_no} {rest[:120]}")); continue
+            got = parse_idx(m.group(1))
+            pos = next((j for j, (i, _) in enumerate(order) if str(i) == st_no), None)
+            if pos is None:
+                continue
+            here = order[pos][1]
+            if here is not None:
+                allowed = [here]
+            else:
+                before = next((x for (_, x) in reversed(order[:pos]) if x is not None), None)
+                after = next((x for (_, x) in order[pos + 1:] if x is not None), None)
+                allowed = [x for x in (before, after) if x is not None]
+            if allowed and got not in allowed:
+                fails.append(("crash_conc", f"crash image after step {st_no}: recovery yields {m.group(1)[:200]}, the index at that instant was {allowed}"))
+            elif int(m.group(2)) or int(m.group(3)):
+                fails.append(("crash_conc", f"crash image after step {st_no}: recovery reports {m.group(2)} missing and {m.group(3)} corrupted blobs"))
     # C04: every visible index entry has its blob (except a blob the case itself turned into a directory)
     sabotaged = {HASH(parse_chunks(l.split()[1])) for l in case_text.splitlines() if l.startswith("undeletable ")}
     for (i, tid, frm, to, idx, cas) in steps:
